@@ -15,6 +15,11 @@ CONSTRUCTS = [
     ("code-block-oneline", ["<% b1 = @@ %>"], 0),
     ("control-if", ["% if @@ or True:", "yes", "% endif"], 0),
     ("control-for", ["% for q in [@@]:", "${q}", "% endfor"], 0),
+    ("control-for-using-loop", ["% for q2 in [@@]:", "${q2}${loop.index}", "% endfor"], 0),
+    ("control-for-using-loop-after-text", ["some text", "more text", "% for q3 in [@@]:", "${loop.first}", "% endfor"], 2),
+    ("control-nested-for-using-loop", ["% for o1 in [1]:", "% for q4 in [@@]:", "${loop.parent.index}", "% endfor", "% endfor"], 1),
+    ("control-while", ["% while @@:", "x", "% endwhile"], 0),
+    ("control-elif", ["% if False:", "a", "% elif @@:", "b", "% endif"], 2),
     ("def-body", ['<%def name="dd()">', "   ${@@}", "</%def>", "${dd()}"], 1),
     ("block-body", ['<%block name="bb">', "text", "${@@}", "</%block>"], 2),
     ("call-arg", ['<%def name="cc(v)">${v}</%def>', "${cc(@@)}"], 1),
